@@ -218,22 +218,31 @@ def listing (s : State n) (a b : Nat) : Res (List Ref) :=
   | .err e => .err e
   | .panic e => .panic e
 
+/-- the XOR of page `p` as `checkPage` reads it from the current tree: `getZeroTo(lcEnd - 1)` minus, when
+    `lcStart != 0`, `getZeroTo(lcStart - 1)` -/
+def pageXor (ls : Nat) (t : Tree (BitVec 256)) (p : Nat) : BitVec 256 :=
+  if p * ls ≠ 0 then xorOps.sub (t.zeroTo xorOps (p * ls + ls - 1)).1 (t.zeroTo xorOps (p * ls - 1)).1
+  else (t.zeroTo xorOps (p * ls + ls - 1)).1
+
+/-- the XOR of the transactions `findBetweenLC` returned: inserted into a scratch tree, then `Root()` -/
+def calcXor (ls : Nat) (txs : List Tx) : BitVec 256 :=
+  (txs.foldl (fun t tx => t.insert xorOps tx.ref tx.clock) (Tree.new xorOps ls)).rootData xorOps
+
 /-- `xorTreeRepair.checkPage` (circuit red = two `IncorrectStateDetected` signals) -/
 def checkPage (cfg : Cfg) (s : State n) : State n :=
   if s.mem.circuit < 2 then s else
-  let lcStart := s.mem.repairPage * cfg.pageSize
+  let p := s.mem.repairPage
+  let lcStart := p * cfg.pageSize
   let lcEnd := lcStart + cfg.pageSize
-  let next := if lcEnd > s.mem.lcHigh then 0 else s.mem.repairPage + 1
+  let next := if lcEnd > s.mem.lcHigh then 0 else p + 1
   match s.disk.findBetweenLC lcStart lcEnd with
   | .ok txs =>
-    let calcT := txs.foldl (fun t tx => t.insert xorOps tx.ref tx.clock) (Tree.new xorOps cfg.pageSize)
-    let tillEnd := (s.mem.xorTree.zeroTo xorOps (lcEnd - 1)).1
-    let tillEnd := if lcStart ≠ 0 then xorOps.sub tillEnd (s.mem.xorTree.zeroTo xorOps (lcStart - 1)).1 else tillEnd
-    let diff := xorOps.sub tillEnd (calcT.rootData xorOps)
-    if xorOps.empty diff then { s with mem := { s.mem with repairPage := next } }
+    let c := calcXor cfg.pageSize txs
+    if xorOps.empty (xorOps.sub (pageXor cfg.pageSize s.mem.xorTree p) c) then
+      { s with mem := { s.mem with repairPage := next } }
     else
-      let p := persist (s.mem.xorTree.replace xorOps lcStart (calcT.rootData xorOps)) s.disk.xorLeaves
-      { disk := { s.disk with xorLeaves := p.2 }, mem := { s.mem with xorTree := p.1, repairPage := next } }
+      let pr := persist (s.mem.xorTree.replace xorOps lcStart c) s.disk.xorLeaves
+      { disk := { s.disk with xorLeaves := pr.2 }, mem := { s.mem with xorTree := pr.1, repairPage := next } }
   | _ => { s with mem := { s.mem with repairPage := next } }
 
 /-- a stored XOR leaf overwritten on disk (takes effect in memory at the next load) -/
